@@ -1,0 +1,139 @@
+//go:build verif
+
+package engine
+
+// Verification hook points, active only with `-tags verif`.
+//
+// verifSync(point, a, b) is called by the search thread at: "entry" (first statement of the search
+// goroutine), "started" (after the interrupted flag was reset), "rootmove" (a = iteration depth,
+// b = index of the root move just finished), "iter" (a = depth of the iteration that just returned),
+// "prebest" and "postbest" (around the bestmove line).
+//
+// Behaviour is configured by environment variables, read once:
+//   VERIF_TRACE=1            print `info string vsync <point> <a> <b>` at every point
+//   VERIF_HOLD=p:a:b[,..]    at a matching point (-1 = any) print `info string vhold <point> <a> <b>` and
+//                            block until one line can be read from the FIFO named by VERIF_CTL
+//                            (each spec fires once)
+//   VERIF_EXPIRE=p:a:b       at the matching point sleep until the search deadline has passed
+//   VERIF_SLEEP=p:a:b:ms     at the matching point sleep ms milliseconds (adds no synchronisation)
+//   VERIF_DEADLINE=1         print `info string vdeadline <millis> depth <d>` when `go` computed its deadline
+// An in-process harness can instead set VerifSyncFn / VerifDeadlineFn directly.
+
+import (
+	"bufio"
+	"fmt"
+	"os"
+	"strconv"
+	"strings"
+	"time"
+)
+
+var VerifSyncFn func(point string, a, b int)
+var VerifDeadlineFn func(start, end time.Time, depth int)
+
+type verifSpec struct {
+	point string
+	a, b  int
+	ms    int
+	used  bool
+}
+
+var verifTrace, verifPrintDeadline bool
+var verifHolds, verifExpires, verifSleeps []*verifSpec
+var verifCtl string
+var verifEnd time.Time
+
+func verifParseSpecs(s string, withMs bool) []*verifSpec {
+	var out []*verifSpec
+	for _, part := range strings.Split(s, ",") {
+		f := strings.Split(strings.TrimSpace(part), ":")
+		if len(f) < 3 {
+			continue
+		}
+		a, _ := strconv.Atoi(f[1])
+		b, _ := strconv.Atoi(f[2])
+		sp := &verifSpec{point: f[0], a: a, b: b}
+		if withMs && len(f) > 3 {
+			sp.ms, _ = strconv.Atoi(f[3])
+		}
+		out = append(out, sp)
+	}
+	return out
+}
+
+func init() {
+	verifTrace = os.Getenv("VERIF_TRACE") != ""
+	verifPrintDeadline = os.Getenv("VERIF_DEADLINE") != ""
+	verifHolds = verifParseSpecs(os.Getenv("VERIF_HOLD"), false)
+	verifExpires = verifParseSpecs(os.Getenv("VERIF_EXPIRE"), false)
+	verifSleeps = verifParseSpecs(os.Getenv("VERIF_SLEEP"), true)
+	verifCtl = os.Getenv("VERIF_CTL")
+}
+
+func (sp *verifSpec) matches(point string, a, b int) bool {
+	return !sp.used && sp.point == point && (sp.a == -1 || sp.a == a) && (sp.b == -1 || sp.b == b)
+}
+
+func verifSync(point string, a, b int) {
+	if VerifSyncFn != nil {
+		VerifSyncFn(point, a, b)
+		return
+	}
+	if verifTrace {
+		fmt.Println("info string vsync", point, a, b)
+	}
+	for _, sp := range verifSleeps {
+		if sp.matches(point, a, b) {
+			sp.used = true
+			time.Sleep(time.Duration(sp.ms) * time.Millisecond)
+		}
+	}
+	for _, sp := range verifExpires {
+		if sp.matches(point, a, b) {
+			sp.used = true
+			fmt.Println("info string vexpire", point, a, b)
+			for !time.Now().After(verifEnd) {
+				time.Sleep(time.Millisecond)
+			}
+			time.Sleep(2 * time.Millisecond)
+		}
+	}
+	for _, sp := range verifHolds {
+		if sp.matches(point, a, b) {
+			sp.used = true
+			fmt.Println("info string vhold", point, a, b)
+			if verifCtl != "" {
+				if f, err := os.Open(verifCtl); err == nil {
+					bufio.NewReader(f).ReadString('\n')
+					f.Close()
+				}
+			}
+			fmt.Println("info string vreleased", point, a, b)
+		}
+	}
+}
+
+func verifDeadline(start, end time.Time, depth int) {
+	verifEnd = end
+	for _, sp := range verifHolds {
+		sp.used = false
+	}
+	for _, sp := range verifExpires {
+		sp.used = false
+	}
+	for _, sp := range verifSleeps {
+		sp.used = false
+	}
+	if VerifDeadlineFn != nil {
+		VerifDeadlineFn(start, end, depth)
+	}
+	if verifPrintDeadline {
+		fmt.Println("info string vdeadline", end.Sub(start).Milliseconds(), "depth", depth)
+	}
+}
+
+func verifLazyCut(pos *Position, cheap, alpha, beta int) {
+	if VerifLazyProbe {
+		verifLazyCutProbe(pos, cheap)
+	}
+}
